@@ -27,3 +27,14 @@ for cid in sorted(checks):
     else: covs = "%s evaluations, %s distinct non-trivial" % (cov.get("evaluations"), cov.get("distinct_nontrivial"))
     print("| %s | %s | %s | %s (%s): %s / %s | %d | %d | %s |" % (cid, hs, c["level"], ev.get("tier", "?"), "exhaustive" if cov.get("exhaustive") else "capped", ev.get("wall_s", "?"), covs,
           len(fixed.get(cid, [])), len(known.get(cid, [])), "; ".join(seeds.get(cid, [])) or "-"))
+
+print()
+print("SEEDS")
+needs = json.load(open(V + "/seeded/needs.json")) if os.path.exists(V + "/seeded/needs.json") else {}
+print("| seed | changed file(s) | what it needs to manifest | checks run (quick tier) |")
+print("|---|---|---|---|")
+for f in sorted(glob.glob(V + "/seeded/*/meta.json")):
+    m = json.load(open(f)); d = os.path.dirname(f)
+    files = sorted(set(re.findall(r"^\+\+\+ b/(\S+)", open(d + "/patch.diff").read(), re.M)))
+    res = "; ".join("%s: %s" % (c.split(":")[0], "caught, %s violation keys" % c.split("=")[-1] if ":rc=1" in c else ("MISSED" if ":rc=0" in c else "infrastructure error")) for c in m.get("checks_run", []))
+    print("| %s | %s | %s | %s |" % (m["seed"], ", ".join(x.replace("src/", "") for x in files), needs.get(m["seed"], "see seeded/%s/notes.txt" % m["seed"]), res))
